@@ -10,6 +10,9 @@ One op = one generated text file:   textfile <genseed> <tokenised file>
     cell by cell with it (independent of the Lean model), then re-renders the same table with
     shuffled rows / columns / separators / missing tokens, reads that with the real code and
     demands the same dataset (metamorphic oracle).
+  * <genseed> is an integer (random table), `d:<k>` (the k-th file of the exhaustive family of
+    files in which a location does not know its lat / lon / elevation, build_det) or `a:<seed>`
+    (the random table of <seed> with one location whose id token is missing).
 """
 import atexit
 import binascii
@@ -34,7 +37,8 @@ THEOREMS = {
 TRUSTED_BASE = [
     "Lean 4.33 kernel; axioms propext, Classical.choice, Quot.sound only",
     "Spec/Table.lean: my reading of the documented text format (a table Case -> Row rendered with any column "
-    "order/subset, date[+hour] or unixtime, leadtime or offset, location or id, altitude or elev, comment lines)",
+    "order/subset, date[+hour] or unixtime, leadtime or offset, location or id, altitude or elev, comment lines; "
+    "Station.lat/lon/elev : Option Rat, none = not known = a missing-value token in that column = reads 0)",
     "CPython float() is modelled at the token-class level: the harness canonicaliser (regex for the generated "
     "grammar: decimal with optional sign/exponent, nan, inf; everything else bad) supplies float(word) and "
     "float(word[1:]) as exact rationals; it is cross-checked against float() on every generated word",
@@ -48,10 +52,19 @@ TRUSTED_BASE = [
 ]
 ASSUMPTIONS = [
     "well-formed file: one header line with at least one of obs/fcst/p*/q*, distinct column names, every data "
-    "row has one value per column, coordinate and metadata cells are numbers other than -999, no two rows with "
+    "row has one value per column, time / lead time / id cells are numbers other than -999, a lat / lon / "
+    "altitude cell is a number other than -999 or, when the location does not know that coordinate, a "
+    "missing-value token on EVERY row of the location (a coordinate given on some rows and missing on others is "
+    "not generated: the documentation does not say which wins), no two rows with "
     "the same (time, leadtime, location), one (lat,lon,elev) per id, id-less files identify a location by the "
-    "(lat,lon,elev) columns present, distinct numeric values among the p/q/e headers",
-    "a station whose elevation/lat/lon is exactly -999 is read as 0 (missing code), excluded from well-formedness",
+    "(lat,lon,elev) columns present (an unknown coordinate counting as 0), distinct numeric values among the "
+    "p/q/e headers",
+    "an unknown lat / lon / elevation (token -999 -999.0 NA na . nan NaN ...) reads as 0, the reader's default for "
+    "an absent column (input.py `# Default values if columns not available`), never as another location's value; "
+    "that it is 0 and not NaN as in the NetCDF reader is recorded under C10 (text-missing-lat-zero, ...)",
+    "stream text.anonid (one location whose id token is missing, spelled -999 / NA / . but not nan): the table "
+    "oracle accepts any fresh id that sorts after the ids of the file for it; Spec.Table has no such location, "
+    "the theorems do not cover it (model = code and the two oracles are asserted)",
     "a `pit` column is additionally exposed as an other-field named pit (mirrored, stated in C09_roundtrip)",
 ]
 RULE = ("text.parse: random well-formed files, 1-4 times x 1-4 lead times x 1-4 locations, sparse (each case kept "
@@ -60,13 +73,25 @@ RULE = ("text.parse: random well-formed files, 1-4 times x 1-4 lead times x 1-4 
         "neither (lat,lon,elev keyed), altitude / elev / absent, obs fcst pit p<t> q<q> e<m> and other columns with "
         "odd spellings (p-5 p+5 p.5 p5. p5e0 q0.25 e10 q p e pit x0), missing tokens -999 -999.0 NA na . nan NaN, "
         "values on a 1/8 grid plus decimals and inf, tabs / multiple blanks / CRLF, comment and # variable/units/x0/x1 "
-        "lines anywhere; text.reject: a few malformed files (no data column, short row, invalid date, bad x0); "
+        "lines anywhere; in about a third of the files some locations do not know some of lat / lon / elevation "
+        "(any missing token on each of their rows; in id-less files the visible tuples stay distinct); "
+        "text.locmiss: EXHAUSTIVE family of 1512 small files, {location, id, no id} x {altitude, elev} x {each "
+        "non-empty subset of lat/lon/elevation unknown} x {second, third, first, second+third of three locations} x "
+        "{each of the nine missing tokens}, rows A B C A B so that an unknown cell follows a row of another location "
+        "with a different non-zero value (A and B differ in the latitude only: filling from the previous row would "
+        "merge them in an id-less file); text.anonid: random files with an id column in which one location has a "
+        "missing id token; text.nanid: four files in which that id is spelled nan / NaN (oracles only, no "
+        "correspondence: fresh NaN objects are outside the modelled domain; known finding text-nan-id-values-lost); "
+        "text.reject: a few malformed files (no data column, short row, invalid date, bad x0); "
         "an op is non-trivial if the file has >= 2 data rows and at least one field with a non-missing value")
 EXHAUSTIVE = {"quick": False, "thorough": False}
-EXHAUSTIVE_NOTE = "seeded random; the space of files is unbounded"
+EXHAUSTIVE_NOTE = ("seeded random; the space of files is unbounded. The sub-stream text.locmiss (unknown lat / lon / "
+                   "elevation of a location, 1512 files) is enumerated completely in both tiers")
 LEVEL_TEXT = ("Lean theorems over a token-level model of Text.__init__: parsing the rendering of any well-formed "
               "table under any layout returns exactly the table (values at their own coordinates, NaN elsewhere, "
-              "ascending duplicate-free times and lead times, location metadata per id, numeric thresholds / "
+              "ascending duplicate-free times and lead times, location metadata per id - a lat / lon / elevation "
+              "the table does not know, written as any missing-value token, reads as 0 exactly like an absent column, "
+              "never as the value of another row -, numeric thresholds / "
               "quantiles / members, variable metadata); layouts and row orders are irrelevant; header words are "
               "classified into exactly one class; _clean maps exactly bad / -999 / nan tokens to NaN. The model is "
               "tied to /repo by differential correspondence on every attribute of the reader's result.")
@@ -167,6 +192,10 @@ def civil_from_days(z):
 
 # ------------------------------------------------------------------ generator: table + layout -> file
 MISSING = ["-999", "-999.0", "NA", ".", "nan", "NaN", "na", "-999.00", "-9.99e2"]
+# an id that is not known: the tokens Text._clean maps to the np.nan singleton.  A literal nan / NaN token in the id
+# column is float()'s own fresh NaN object, which Python's dict / set / tuple comparisons do not identify with itself
+# across rows; that spelling is outside the modelled domain (Model/TextInput.lean, header comment).
+ANON_TOKENS = ["-999", "-999.0", "NA", ".", "na", "-999.00", "-9.99e2"]
 OTHER_NAMES = ["foo", "q", "p", "e", "x0", "pitx", "elevation", "eabc", "qq", "p5x", "T2m", "obs2", "fcst_raw",
                "ensmean", "lead", "time", "pp", "e1a"]
 VAR_NAMES = [["Weird", "variable"], ["T"], ["Precip", "24h"], ["RH"], ["Wind", "speed", "10m"], []]
@@ -208,7 +237,7 @@ def draw_value(rng):
     return rng.choice([0.0, 1.0, -1.0])
 
 
-def build(genseed, relayout=None):
+def build(genseed, relayout=None, anon=False):
     """-> dict(table=..., lines=[(kind, words)], expect=...)   deterministic in genseed.
     relayout: a second seed; when given the TABLE is the one of genseed but rows / columns / comment
     placement / missing-token spellings / number spellings are drawn afresh (metamorphic variant)."""
@@ -268,6 +297,9 @@ def build(genseed, relayout=None):
             continue
         stations.append({"id": float(i), "lat": lat, "lon": lon, "elev": elev})
     ns = len(stations)
+    draw_meta_missing(genseed, stations, id_enc, has_lat, has_lon, elev_enc)
+    if anon and id_enc != "none":        # one location whose id is not known (missing-value token in the id column)
+        random.Random(genseed * 69069 % (2 ** 61) + 3).choice(stations)["noid"] = True
     # ---- fields
     fields = []     # (kind, param, header word)
     if rng.random() < 0.85:
@@ -326,9 +358,51 @@ def build(genseed, relayout=None):
             "x1": rng.choice([100.0, 10.0, 1.0, 0.25]) if rng.random() < 0.3 else None}
     T = dict(times=times, leads=leads, stations=stations, fields=fields, rows=rows, meta=meta,
              time_enc=time_enc, lead_enc=lead_enc, id_enc=id_enc, elev_enc=elev_enc, has_lat=has_lat, has_lon=has_lon)
-
     # ================= layout (drawn from lrng so that a re-layout keeps the table)
     lrng = rng if relayout is None else random.Random(relayout * 7919 + genseed)
+    return layout(T, lrng)
+
+
+META_KIND = {"lat": "lat", "lon": "lon", "altitude": "elev", "elev": "elev"}
+
+
+def vis_of(T, s, miss=None):
+    """the (lat, lon, elev) a reader of the file can know of station s: the default 0 for an absent column
+    and for a coordinate that is written as a missing-value token"""
+    miss = s.get("miss", ()) if miss is None else miss
+    return (s["lat"] if T["has_lat"] and "lat" not in miss else 0.0,
+            s["lon"] if T["has_lon"] and "lon" not in miss else 0.0,
+            s["elev"] if T["elev_enc"] != "none" and "elev" not in miss else 0.0)
+
+
+def draw_meta_missing(genseed, stations, id_enc, has_lat, has_lon, elev_enc):
+    """about a third of the files: some locations do not know their lat / lon / elevation; EVERY row of such a
+    location has a missing-value token in that column.  Drawn from its own generator so that the rest of the
+    table of a seed is what it was before.  Files without ids keep distinct visible (lat,lon,elev) tuples."""
+    mrng = random.Random(genseed * 40503 % (2 ** 61) + 5)
+    F = dict(has_lat=has_lat, has_lon=has_lon, elev_enc=elev_enc)
+    present = [k for k, on in (("lat", has_lat), ("lon", has_lon), ("elev", elev_enc != "none")) if on]
+    for s in stations:
+        s["miss"] = frozenset()
+    if not present or mrng.random() >= 0.35:
+        return
+    pm = mrng.choice([0.25, 0.5, 1.0])
+    ps = mrng.choice([0.4, 0.7, 1.0])
+    for s in stations:
+        if mrng.random() >= ps:
+            continue
+        cand = frozenset(k for k in present if mrng.random() < pm)
+        if id_enc == "none" and any(o is not s and vis_of(F, o) == vis_of(F, s, cand) for o in stations):
+            continue
+        s["miss"] = cand
+
+
+def layout(T, lrng, fixed=False, metatok=None, idtok=None):
+    """render table T as lines.  fixed: rows in table order, columns in canonical order, plain spellings
+    (deterministic files); metatok: the token written for an unknown lat / lon / elevation (default: any of MISSING,
+    drawn per cell)"""
+    time_enc, lead_enc, id_enc, elev_enc = T["time_enc"], T["lead_enc"], T["id_enc"], T["elev_enc"]
+    has_lat, has_lon, fields, rows, meta = T["has_lat"], T["has_lon"], T["fields"], T["rows"], T["meta"]
     cols = []
     if time_enc == "unix":
         cols.append("unixtime")
@@ -349,18 +423,18 @@ def build(genseed, relayout=None):
     ncoord = len(cols)
     cols += [w for _, _, w in fields]
     order = list(range(len(cols)))
-    mode = lrng.random()
+    mode = 1.0 if fixed else lrng.random()
     if mode < 0.6:
         lrng.shuffle(order)
     elif mode < 0.7:
         order.reverse()
     rws = list(rows)
-    mode = lrng.random()
+    mode = 1.0 if fixed else lrng.random()
     if mode < 0.6:
         lrng.shuffle(rws)
     elif mode < 0.7:
         rws.reverse()
-    plain = lrng.random() < 0.3
+    plain = True if fixed else lrng.random() < 0.3
 
     def cell(r, c):
         if c < ncoord:
@@ -380,11 +454,13 @@ def build(genseed, relayout=None):
                 return spell_number(lrng, h, plain)
             if name in ("leadtime", "offset"):
                 return spell_number(lrng, r["l"], plain)
+            if name in ("location", "id") and r["s"].get("noid"):
+                return lrng.choice(ANON_TOKENS) if idtok is None else idtok
             if name in ("location", "id"):
                 return spell_number(lrng, r["s"]["id"], plain)
-            if name in ("altitude", "elev"):
-                return spell_number(lrng, r["s"]["elev"], plain)
-            return spell_number(lrng, r["s"][name], plain)
+            if META_KIND[name] in r["s"].get("miss", ()):      # not known: a missing-value token on every row
+                return lrng.choice(MISSING) if metatok is None else metatok
+            return spell_number(lrng, r["s"][META_KIND[name]], plain)
         v = r["vals"][c - ncoord]
         if v is None:
             return lrng.choice(MISSING)
@@ -414,16 +490,97 @@ def build(genseed, relayout=None):
     for k in ("x0", "x1"):
         if meta[k] is not None:
             cm.append([k + ":", spell_number(lrng, meta[k], plain)] + (["extra"] if lrng.random() < 0.1 else []))
-    for _ in range(lrng.choice([0, 0, 1, 2])):
+    for _ in range(0 if fixed else lrng.choice([0, 0, 1, 2])):
         cm.append(lrng.choice(OTHER_COMMENTS))
     lrng.shuffle(cm)
-    where = lrng.random()
+    where = 0.0 if fixed else lrng.random()
     for c in cm:
         pos = 0 if where < 0.6 else lrng.randint(0, len(lines))
         lines.insert(pos, ("c", c))
     T["lines"] = lines
     T["order"] = [cols[c] for c in order]
     return T
+
+
+# ------------------------------------------------------------------ deterministic files: unknown location metadata
+DET_ID = ["location", "id", "none"]
+DET_ELEV = ["altitude", "elev"]
+DET_SUBSETS = [("lat",), ("lon",), ("elev",), ("lat", "lon"), ("lat", "elev"), ("lon", "elev"), ("lat", "lon", "elev")]
+DET_WHO = [(1,), (2,), (0,), (1, 2)]
+N_DET = len(DET_ID) * len(DET_ELEV) * len(DET_SUBSETS) * len(DET_WHO) * len(MISSING)
+
+
+def build_det(k, relayout=None):
+    """the k-th file of the exhaustive family  {location, id, no id} x {altitude, elev} x {non-empty subset of
+    lat/lon/elevation unknown} x {which of three locations (first, second, third, second and third)} x
+    {missing-value token}: one date, two lead times, three locations A B C whose rows follow each other in the
+    file (A B C A B), obs and fcst; locations A and B differ in the latitude only, so a reader that fills an unknown
+    latitude from the previous row would merge them in a file without ids."""
+    k0 = k
+    k, tok = divmod(k, len(MISSING))
+    k, who = divmod(k, len(DET_WHO))
+    k, sub = divmod(k, len(DET_SUBSETS))
+    k, el = divmod(k, len(DET_ELEV))
+    id_enc = DET_ID[k]
+    stations = [{"id": 3.0, "lat": 60.0, "lon": 10.0, "elev": 100.0, "miss": frozenset()},
+                {"id": 41.0, "lat": 61.0, "lon": 10.0, "elev": 100.0, "miss": frozenset()},
+                {"id": 7.0, "lat": 62.0, "lon": 11.0, "elev": 200.0, "miss": frozenset()}]
+    for i in DET_WHO[who]:
+        stations[i]["miss"] = frozenset(DET_SUBSETS[sub])
+    if id_enc == "none" and len(DET_WHO[who]) == 2 and len(DET_SUBSETS[sub]) == 3:
+        stations[2]["miss"] = frozenset(("lat", "lon"))       # two locations without any metadata are one location
+    times, leads = [1325376000.0], [0.0, 6.0]
+    fields = [("obs", None, "obs"), ("fcst", None, "fcst")]
+    rows, n = [], 0
+    for l in leads:
+        for s in stations:
+            n += 1
+            if n < 6:                              # (lead 6, C) is absent from the file
+                rows.append({"t": times[0], "l": l, "s": s, "vals": [float(n), None if n == 2 else float(10 * n)]})
+    T = dict(times=times, leads=leads, stations=stations, fields=fields, rows=rows,
+             meta={"name": None, "units": None, "x0": None, "x1": None},
+             time_enc="date", lead_enc="leadtime", id_enc=id_enc, elev_enc=DET_ELEV[el], has_lat=True, has_lon=True)
+    if id_enc == "none" and len(set(vis_of(T, s) for s in stations)) != 3:
+        raise AssertionError("deterministic file %d: locations not distinct" % k0)
+    if relayout is None:
+        return layout(T, random.Random(k0), fixed=True, metatok=MISSING[tok])
+    return layout(T, random.Random(relayout * 7919 + k0))
+
+
+NANID = [("location", "nan"), ("id", "nan"), ("location", "NaN"), ("id", "NaN")]
+
+
+def build_nanid(k, relayout=None):
+    """three locations, the second without id, its id cells spelled with a literal nan / NaN (float()'s own NaN
+    object on every row instead of the np.nan singleton that _clean returns for -999 / NA): outside the modelled
+    domain, judged by the two oracles only (known finding text-nan-id-values-lost)"""
+    id_enc, tok = NANID[k]
+    stations = [{"id": 3.0, "lat": 60.0, "lon": 10.0, "elev": 100.0, "miss": frozenset()},
+                {"id": 41.0, "lat": 61.0, "lon": 10.0, "elev": 100.0, "miss": frozenset(), "noid": True},
+                {"id": 7.0, "lat": 62.0, "lon": 11.0, "elev": 200.0, "miss": frozenset()}]
+    times, leads = [1325376000.0], [0.0, 6.0]
+    rows, n = [], 0
+    for l in leads:
+        for st in stations:
+            n += 1
+            rows.append({"t": times[0], "l": l, "s": st, "vals": [float(n), float(10 * n)]})
+    T = dict(times=times, leads=leads, stations=stations, fields=[("obs", None, "obs"), ("fcst", None, "fcst")],
+             rows=rows, meta={"name": None, "units": None, "x0": None, "x1": None}, idtoken="nan",
+             time_enc="date", lead_enc="leadtime", id_enc=id_enc, elev_enc="altitude", has_lat=True, has_lon=True)
+    if relayout is None:
+        return layout(T, random.Random(k), fixed=True, idtok=tok)
+    return layout(T, random.Random(relayout * 7919 + k), idtok=tok)
+
+
+def build_tag(tag, relayout=None):
+    """the generating table + file of an op tag: <genseed>, d:<k> or a:<genseed>"""
+    if tag.startswith("d:"):
+        return build_det(int(tag[2:]), relayout)
+    if tag.startswith("a:"):
+        return build(int(tag[2:]), relayout, anon=True)
+    if tag.startswith("n:"):
+        return build_nanid(int(tag[2:]), relayout)
+    return build(int(tag), relayout)
 
 
 # ------------------------------------------------------------------ expected dataset of a table (the oracle)
@@ -441,11 +598,12 @@ def expected(T):
             used.append(s)
 
     def vis(s):
-        return (s["lat"] if T["has_lat"] else 0.0, s["lon"] if T["has_lon"] else 0.0,
-                s["elev"] if T["elev_enc"] != "none" else 0.0)
+        return vis_of(T, s)
     if T["id_enc"] != "none":
-        used.sort(key=lambda s: s["id"])
-        ids = [s["id"] for s in used]
+        # a location whose id is not known is read like one of a file without ids: an id no other location has;
+        # the reply is sorted by id, the oracle accepts any fresh id (judge) and lists that location last
+        used.sort(key=lambda s: (1, 0.0) if s.get("noid") else (0, s["id"]))
+        ids = [float("inf") if s.get("noid") else s["id"] for s in used]
     else:
         used.sort(key=vis)
         ids = [float(k) for k in range(len(used))]
@@ -638,6 +796,9 @@ def malformed(rng):
 
 def gen_ops(tier, rng):
     n = 1000 if tier == "quick" else 20000
+    # exhaustive (both tiers): unknown lat / lon / elevation of a location, every token, every position
+    for k in range(N_DET):
+        yield "text.locmiss", "textfile d:%d %s" % (k, enc_file(build_det(k)["lines"]))
     for _ in range(n):
         g = rng.randrange(1, 2 ** 40)
         T = build(g)
@@ -645,6 +806,16 @@ def gen_ops(tier, rng):
         if g % 8 == 0:       # how the reader cuts lines into words (str.split), on the real lines
             for k, line in enumerate(file_text(T["lines"], g).splitlines(True)):
                 yield "text.split", "textsplit %d:%d %s" % (g, k, hexs(line))
+    # a location without id (missing-value token in the location / id column) next to locations with ids
+    k = 0
+    while k < (150 if tier == "quick" else 3000):
+        g = rng.randrange(1, 2 ** 40)
+        T = build(g, anon=True)
+        if T["id_enc"] != "none" and T["rows"]:
+            k += 1
+            yield "text.anonid", "textfile a:%d %s" % (g, enc_file(T["lines"]))
+    for k in range(len(NANID)):     # the same with the id spelled nan / NaN: oracle only (see cmp), a known finding
+        yield "text.nanid", "textfile n:%d %s" % (k, enc_file(build_nanid(k)["lines"]))
     for k, line in enumerate(["", "#", "# ", "\n", " # obs", "a\x0bb\x0cc\x1cd\x1fe \r\n", "#\t\tvariable:  T  ",
                               "obs\tfcst", "  1   2\t\n"]):
         yield "text.split", "textsplit 0:%d %s" % (k, hexs(line) or "-")
@@ -653,6 +824,11 @@ def gen_ops(tier, rng):
 
 
 def cmp(op, impl_out, model_out):
+    if op.startswith("textfile n:"):
+        # a literal nan token in the id column: a fresh NaN object per row, which CPython's dict / set / tuple do not
+        # identify across rows.  Outside the modelled domain (Model/TextInput.lean identifies all NaNs, i.e. it
+        # returns the faithful dataset); the implementation is judged by the table and metamorphic oracles only.
+        return True
     if impl_out.startswith("EXC:"):
         return model_out == "EXC"
     return impl_out == model_out
@@ -688,27 +864,40 @@ def judge(op, impl_out, spec_out):
         return None
     if a[1].startswith("m:"):
         return None                      # malformed files: only model = code is asserted
-    g = int(a[1])
-    T = build(g)
+    T = build_tag(a[1])
+    g = int(a[1].split(":")[-1])
     if enc_file(T["lines"]) != a[2]:
-        return ({"kind": "oracle-crash"}, "op line is not the rendering of the table of seed %d" % g)
-    layout = {"time": T["time_enc"], "lead": T["lead_enc"], "id": T["id_enc"], "elev": T["elev_enc"]}
+        return ({"kind": "oracle-crash"}, "op line is not the rendering of the table of seed %s" % a[1])
+    sig = {"time": T["time_enc"], "lead": T["lead_enc"], "id": T["id_enc"], "elev": T["elev_enc"]}
+    unknown = sorted(set(k for s in T["stations"] for k in s.get("miss", ())))
+    if unknown:                      # some location does not know these coordinates (missing-value tokens)
+        sig["metamiss"] = ",".join(unknown)
+    if T.get("idtoken"):
+        sig["idtoken"] = T["idtoken"]
     if impl_out.startswith("E") or "=" not in impl_out:
-        return (dict(layout, kind="rejected"), "well-formed file ended in %s" % impl_out)
+        return (dict(sig, kind="rejected"), "well-formed file ended in %s" % impl_out)
     exp = expected(T)
     got = parse_reply(impl_out)
+    if exp["IDS"].endswith("inf") and any(s.get("noid") for s in T["stations"]):
+        # the location without id: any id that no other location of the file has (the reply lists it where its
+        # id sorts; the table oracle needs it last, which is where the largest id sorts)
+        ei, gi = exp["IDS"].split(","), got.get("IDS", "").split(",")
+        fresh = gi[-1] if len(gi) == len(ei) else ""
+        if gi[:-1] == ei[:-1] and re.match(r"-?\d+(/\d+)?\Z", fresh) and fresh not in gi[:-1]:
+            exp["IDS"] = got["IDS"]
+            sig["anonid"] = True
     k = _diff(exp, got)
     if k is not None:
-        return (dict(layout, kind=KIND[k], attr=k),
+        return (dict(sig, kind=KIND[k], attr=k),
                 "attribute %s: reader gives %s, the generating table says %s (header %s)" %
                 (k, got.get(k, "")[:200], exp[k][:200], " ".join(T["order"])))
     # metamorphic: same table, rows / columns / spellings / comment placement / separators redrawn
-    T2 = build(g, relayout=g % 1000003 + 1)
+    T2 = build_tag(a[1], relayout=g % 1000003 + 1)
     out2 = read_real(T2["lines"], g + 1)
     if out2 != impl_out:
         got2 = parse_reply(out2) if "=" in out2 else {}
         k = _diff(got, got2) or "?"
-        return (dict(layout, kind="layout-dependence", attr=k),
+        return (dict(sig, kind="layout-dependence", attr=k),
                 "two layouts of the same table are read differently (%s): %s vs %s | second file: %s" %
                 (k, got.get(k, "")[:150], got2.get(k, out2)[:150], enc_file(T2["lines"])[:400]))
     return None
@@ -722,6 +911,15 @@ def nontrivial(op, out):
     d = parse_reply(out)
     nrows = op.count("|")
     return nrows >= 2 and any(re.search(r"(^|,)-?\d", d.get(k, "")) for k in ("obs", "fcst", "pit", "thr", "q", "ens", "O"))
+
+
+def float_or_nan(w):
+    """True when Text._clean(w) is NaN"""
+    try:
+        f = float(w)
+    except ValueError:
+        return True
+    return f == -999 or math.isnan(f)
 
 
 def extra_evidence(rows):
@@ -742,6 +940,12 @@ def extra_evidence(rows):
             if n in names:
                 c["col:" + n] += 1
         c["files"] += 1
+        if a[1].startswith("d:"):
+            c["exhaustive-locmiss-files"] += 1
+        mcols = [i for i, n in enumerate(names) if n in META_KIND]
+        datarows = [l.split(";") for l in a[2].split("|") if l and not l.startswith("#")][1:]
+        if any(float_or_nan(dec_name(r[i])) for r in datarows for i in mcols if i < len(r)):
+            c["with-unknown-location-metadata"] += 1
         if any(n[0] == "p" and n != "pit" for n in names):
             c["col:p*"] += 1
         if any(n[0] == "q" for n in names):
